@@ -99,6 +99,8 @@ type Chain struct {
 	ValPriv []*ed25519.PrivKey
 	Genesis []byte
 	Offline map[string]bool // operators (hex) whose validators do not sign (downtime)
+	// PendingEvidence is delivered with the next BeginBlock
+	PendingEvidence []abci.Evidence
 	// Blocks is the log of everything this node was fed and what it answered (C10, C20: replay on other instances).
 	Blocks []*BlockRec
 }
@@ -112,6 +114,9 @@ type BlockRec struct {
 	AppHash []byte
 	Updates string
 	Commit  abci.LastCommitInfo
+	// Evidence of misbehaviour that consensus hands to this block (double signing): the slashing and evidence modules slash,
+	// jail and tombstone the validator in BeginBlock
+	Evidence []abci.Evidence
 }
 
 func (c *Chain) Header() tmproto.Header {
@@ -205,6 +210,7 @@ func NewChain(cfg GenCfg, out *Recorder) *Chain {
 		slg.Params.MinSignedPerWindow = sdk.NewDecWithPrec(5, 1)
 		slg.Params.DowntimeJailDuration = 30 * time.Second
 		slg.Params.SlashFractionDowntime = sdk.NewDecWithPrec(7, 2)
+		slg.Params.SlashFractionDoubleSign = sdk.NewDecWithPrec(8, 1)
 		for _, vp := range c.ValPriv {
 			ca := sdk.ConsAddress(vp.PubKey().Address())
 			slg.SigningInfos = append(slg.SigningInfos, slashingtypes.SigningInfo{Address: ca.String(),
@@ -312,6 +318,11 @@ func (c *Chain) Begin(dt time.Duration) *PanicInfo {
 		req.LastCommitInfo = c.lastCommit()
 	}
 	c.Blocks[len(c.Blocks)-1].Commit = req.LastCommitInfo
+	if len(c.PendingEvidence) > 0 {
+		req.ByzantineValidators = c.PendingEvidence
+		c.Blocks[len(c.Blocks)-1].Evidence = c.PendingEvidence
+		c.PendingEvidence = nil
+	}
 	pi := catch(func() {
 		c.App.BeginBlock(req)
 	})
@@ -424,4 +435,19 @@ func SortedKeys(m map[string]interface{}) []string {
 	}
 	sort.Strings(ks)
 	return ks
+}
+
+// DoubleSign queues evidence that validator v signed two blocks at the previous height: the next BeginBlock slashes it by the
+// double-sign fraction, jails and tombstones it.
+func (c *Chain) DoubleSign(v int) {
+	val, found := c.App.VerifStakingKeeper().GetValidator(c.Ctx(), sdk.ValAddress(c.Accts[v].Addr))
+	if !found || v >= len(c.ValPriv) {
+		return
+	}
+	ca := c.ValPriv[v].PubKey().Address()
+	c.PendingEvidence = append(c.PendingEvidence, abci.Evidence{Type: abci.EvidenceType_DUPLICATE_VOTE,
+		Validator: abci.Validator{Address: ca, Power: val.ConsensusPower()}, Height: c.Height, Time: c.Time, TotalVotingPower: 0})
+	if c.Out != nil {
+		c.Out.Note(D{"k": "note", "double_sign": Hex(c.Accts[v].Addr), "h": c.Height})
+	}
 }
